@@ -27,6 +27,7 @@ KINDS = [
     (["C", "O", "H"], [(0, 1, 2), (0, 2, 1)], [[0.1, 0.0, 0.0], [1.2, 0.3, 0.1], [-0.5, 0.9, 0.2]]),                        # branched tree
     (["C", "N", "C"], [(0, 1, 1), (1, 2, 1), (2, 0, 1)], [[0.0, 0.0, 0.1], [1.4, 0.1, 0.0], [0.7, 1.2, -0.1]]),            # 3-ring
     (["C", "C", "O", "H"], [(0, 1, 1), (1, 2, 1), (1, 3, 1)], [[0.0, 0.2, 0.0], [1.5, 0.0, 0.1], [2.1, 1.2, 0.4], [2.0, -0.8, -0.7]]),  # 4 atoms, chiral pose
+    (["C", "O", "H"], [(0, 1, 1), (0, 1, 2), (1, 2, 1)], [[0.0, 0.1, 0.0], [1.3, 0.2, 0.1], [1.9, 1.0, -0.3]]),           # two parallel bonds between one pair of atoms
 ]
 APDIR = [[-0.8, -0.5, 0.6], [0.2, -0.9, -0.7], [0.5, 0.4, 1.1], [-0.3, 0.2, -1.0]]
 
@@ -50,8 +51,17 @@ def frag(cls, kind, host, q, m, tag, shift=0.0, ap_first=False, parallel_to=None
     if cls is Molecule:
         kw["atomic_charges"] = [0.125 * (i + 1) * (1 if tag == "a" else -1) for i in range(n + 1)]
     s = cls(atoms, **kw)
+    seen = []
     for a, b, t in bonds:
-        s.connect(a + off, b + off, btype=t, label=f"{tag}{a}{b}", attrib={"bo": [tag]})
+        if (a, b) in seen:
+            # a second bond between the same two atoms is put into the bond table directly (as a copy constructor or a reader would), so that the
+            # fragment has it whatever append_bond thinks of parallel bonds
+            bd = Bond(s.atoms[a + off], s.atoms[b + off], btype=t, label=f"{tag}{a}{b}", attrib={"bo": [tag]})
+            bd.parent = s
+            s._bonds.append(bd)
+        else:
+            s.connect(a + off, b + off, btype=t, label=f"{tag}{a}{b}", attrib={"bo": [tag]})
+        seen.append((a, b))
     s.connect(host + off, api, label=f"{tag}ap")
     return s, api, host + off
 
@@ -167,7 +177,7 @@ def h_join_build(ka: int, ha: int, kb: int, hb: int, dsel: int, bsel: int, opt: 
     constitution, source integrity, wiring, rigid placement on the concrete pose: every fragment kind x attachment host x options
     pre: 0 <= ka < len(KINDS) and 0 <= kb < len(KINDS) and 0 <= ha <= 3 and 0 <= hb <= 3
     pre: 0 <= dsel < len(DISTS) and 0 <= bsel < len(BTYPES) and 0 <= opt <= 1 and 0 <= cls_sel <= 1 and 0 <= by_obj <= 1 and 0 <= first <= 1
-    pre: SPLIT < 0 or ka * 4 + kb == SPLIT
+    pre: SPLIT < 0 or ka * len(KINDS) + kb == SPLIT
     post: _
     """
     return _build(pick(ka, len(KINDS)), pick(ha, 4), pick(kb, len(KINDS)), pick(hb, 4), pick(dsel, len(DISTS)), pick(bsel, len(BTYPES)), pick(opt, 2), pick(cls_sel, 2), pick(by_obj, 2), pick(first, 2))
@@ -177,7 +187,7 @@ def h_join_build_q(ka: int, ha: int, kb: int, hb: int, cfg: int) -> bool:
     """
     quick-tier cut of h_join_build: all fragment kinds and hosts, option vectors from a pairwise-covering menu
     pre: 0 <= ka < len(KINDS) and 0 <= kb < len(KINDS) and 0 <= ha <= 3 and 0 <= hb <= 3 and 0 <= cfg < len(CFG)
-    pre: SPLIT < 0 or ka * 4 + kb == SPLIT
+    pre: SPLIT < 0 or ka * len(KINDS) + kb == SPLIT
     pre: not QUICK or (ha + hb) % 3 == 0
     post: _
     """
@@ -207,7 +217,7 @@ def h_join_parallel(ka: int, ha: int, kb: int, hb: int, par: int, opt: int, scal
     """
     attachment vectors exactly parallel / antiparallel (both branches of the vector-to-vector rotation), product independent of the RNG state
     pre: 0 <= ka < len(KINDS) and 0 <= kb < len(KINDS) and 0 <= ha <= 3 and 0 <= hb <= 3 and 0 <= par <= 1 and 0 <= opt <= 1 and 0 <= scale <= 2
-    pre: SPLIT < 0 or ka * 4 + kb == SPLIT
+    pre: SPLIT < 0 or ka * len(KINDS) + kb == SPLIT
     pre: not QUICK or (ha <= 1 and hb <= 0 and scale <= 1)
     post: _
     """
@@ -709,11 +719,11 @@ def run(rep, tier):
                    "nearly (not exactly) antiparallel poses with cos <= -1+1e-6 other than the exactly parallel ones", "[selector-bound] for the XH constitution part"]
     rep.assumptions = ["SR: rotation_matrix_from_vectors replaced by its C11 contract in the generic-pose geometry goals (the real function is used in the exactly-parallel poses, the hidden-state goals and in all XH runs)",
                        "SR: _optimize_rotation replaced by 'rotation about the given axis by an arbitrary angle' in join-opt; the real function is analysed separately (optrot) with the kernel replaced by its definition"]
-    nsplit = 16
+    nsplit = len(KINDS) ** 2
     env = {"XH_QUICK": "1"} if q else {}
     specs = [{"fn": "h_join_charge", "timeout": 900}]
     specs += [{"fn": "h_join_build_q", "timeout": 900 if q else 3000, "split": s, "env": env} for s in range(nsplit)]
-    specs += [{"fn": "h_join_parallel", "timeout": 900 if q else 3000, "split": s, "env": env} for s in (range(nsplit) if not q else (0, 5, 10, 15))]
+    specs += [{"fn": "h_join_parallel", "timeout": 900 if q else 3000, "split": s, "env": env} for s in (range(nsplit) if not q else (0, 6, 12, 18, 24))]
     specs += [{"fn": "h_combine", "timeout": 900}]
     xh.run_obligations(rep, "harness.C12", specs)
     allp = []
